@@ -20,4 +20,8 @@ import importlib as _importlib
 import os as _os
 
 for _f in sorted(_glob.glob(_os.path.join(_os.path.dirname(__file__), 'props_c*.py'))):
-    _importlib.import_module('vf.' + _os.path.basename(_f)[:-3])
+    try:
+        _importlib.import_module('vf.' + _os.path.basename(_f)[:-3])
+    except Exception as _e:  # a broken registry module must not take the other properties down
+        import sys as _sys
+        _sys.stderr.write('registry module %s failed to load: %r\n' % (_f, _e))
